@@ -66,7 +66,16 @@ def compile_text(text):
     return 'ok', listing(p.get_program())
 
 
+_PATLIKE = __import__('re').compile(r'^[\d*]{1,2}:[\d*]{1,2}$')
+
+
 def can_drop_gap(a, b):
+    """white space may go where a neighbour is an operator, brace or bracket; the `*` of a time pattern is part
+    of the pattern, not an operator: next to a pattern only a bracket or brace makes the gap optional"""
+    if _PATLIKE.match(a):
+        return b[0] in '[]{}()'
+    if _PATLIKE.match(b):
+        return a[-1] in '[]{}()'
     return a[-1] in OPCH or b[0] in OPCH
 
 
@@ -169,6 +178,7 @@ def _first_diff(a, b):
 
 
 def _part_a(rank, n, subj, seed, pair_quota):
+    world.World(world.POP_ONE)          # the compiler needs the injection bindings (runtime functions)
     t = Tally()
     order = sorted(range(len(subj)), key=lambda i: (hash((seed, subj[i][0])) & 0xffff, i))
     pair_set = set(order[:pair_quota])
@@ -496,6 +506,8 @@ def run(tier, seed):
                     cur[0] += cnt
                     if len(text) < len(cur[1]):
                         cur[1], cur[2] = text, detail
+    for pname, cnt in per.items():
+        assert cnt > 0, 'harness: part %s explored nothing' % pname
     for kind, (cnt, text, detail) in sorted(viol.items()):
         rep.violation(kind, '%s (%d cases), e.g. %r: %s' % (kind, cnt, text, detail),
                       {'text': text, 'detail': detail, 'cases': cnt})
